@@ -195,6 +195,56 @@ func wasmGen(g *h.Gen) {
 		g.Emit("wasm draw %s; show", strings.Join(ops, "; "))
 	}
 
+	// ---- directed: LockRegion beside wide runes (screen.go:424 is shared by every backend): a wide rune just left of a region
+	// that is locked and unlocked again / unlocked without ever having been locked / locked twice and unlocked once; the
+	// wide rune inside the region; content changed while locked; then Shows (the page must equal the logical contents and
+	// only changed cells may be touched)
+	{
+		d := "0,0,0,0,0,-,-"
+		n := 0
+		for _, x := range []int{1, 2, 4} {
+			for _, left := range []int{0x4e16, 'l'} {
+				for _, variant := range []string{"lock-unlock", "never", "twice", "partial", "change"} {
+					n++
+					y := n % 2
+					ops := []string{}
+					if fillZWSuffix() != "" {
+						ops = append(ops, "variant fz")
+					}
+					ops = append(ops, "size 6 2", fmt.Sprintf("sc %d %d %d - %s", x-1, y, left, d), fmt.Sprintf("sc %d %d 107 - %s", x, y, d),
+						fmt.Sprintf("sc %d %d 19990 - %s", 0, 1-y, d), "show")
+					L := func(x, w, on int) string { return fmt.Sprintf("lock %d 0 %d 2 %d", x, w, on) }
+					switch variant {
+					case "lock-unlock":
+						ops = append(ops, L(x, 2, 1), "show", L(x, 2, 0))
+					case "never":
+						ops = append(ops, L(x, 2, 0), "show", L(1, 1, 0))
+					case "twice":
+						ops = append(ops, L(x, 2, 1), L(x, 2, 1), "show", L(x, 2, 0))
+					case "partial":
+						ops = append(ops, L(x, 2, 1), "show", L(x+1, 1, 0), "show", L(x, 1, 0))
+					case "change":
+						ops = append(ops, L(x, 2, 1), fmt.Sprintf("sc %d %d 30028 - %s", x, y, d), fmt.Sprintf("sc %d %d 120 - %s", x-1, y, d),
+							fmt.Sprintf("sc %d %d %d - %s", x-1, y, left, d), "show", L(x, 2, 0))
+					}
+					ops = append(ops, "show", "show")
+					g.Emit("wasm draw %s", strings.Join(ops, "; "))
+				}
+			}
+		}
+		// Fill with runes that cannot be displayed in a cell of their own (C19 "leave the page grid equal to the logical
+		// contents"; the logical content of such a cell is what GetContent reports: a blank on the repaired Fill)
+		for _, fr := range fillSpecial {
+			ops := []string{}
+			if fillZWSuffix() != "" {
+				ops = append(ops, "variant fz")
+			}
+			ops = append(ops, "size 3 2", fmt.Sprintf("sc 1 0 65 769 %s", d), "show", fmt.Sprintf("fill %d %s", fr, d), "show",
+				fmt.Sprintf("sc 0 1 %d - %s", fr, d), fmt.Sprintf("fill %d 4294967297,4294967298,0,0,0,-,-", fr), "show")
+			g.Emit("wasm draw %s", strings.Join(ops, "; "))
+		}
+	}
+
 	// ---- draw histories
 	for i := 0; i < g.N(220, 12000); i++ {
 		var ops []string
@@ -207,6 +257,7 @@ func wasmGen(g *h.Gen) {
 			ops = append(ops, fmt.Sprintf("size %d %d", w, hh))
 		}
 		n := r.Range(4, 40)
+		lastLock := ""
 		for j := 0; j < n; j++ {
 			x, y := r.Range(0, w-1), r.Range(0, hh-1)
 			if r.Chance(6) {
@@ -224,7 +275,11 @@ func wasmGen(g *h.Gen) {
 			case c < 72:
 				ops = append(ops, "sync")
 			case c < 76:
-				ops = append(ops, fmt.Sprintf("fill %d %s", h.Pick(r, []int{' ', 'x', '.', 0x4e16, 0, 0x301}), RandStyle(r)))
+				fr := h.Pick(r, []int{' ', 'x', '.', 0x4e16, 0, 0x301})
+				if r.Chance(25) {
+					fr = h.Pick(r, fillSpecial)
+				}
+				ops = append(ops, fmt.Sprintf("fill %d %s", fr, RandStyle(r)))
 			case c < 79:
 				ops = append(ops, "clear")
 			case c < 83:
@@ -237,7 +292,18 @@ func wasmGen(g *h.Gen) {
 					ops = append(ops, fmt.Sprintf("size %d %d", w, hh))
 				}
 			case c < 91:
-				ops = append(ops, fmt.Sprintf("lock %d %d %d %d %d", x, y, r.Range(0, 3), r.Range(0, 2), r.Intn(2)))
+				lk := r.Intn(2)
+				reg := fmt.Sprintf("lock %d %d %d %d", x, y, r.Range(0, 3), r.Range(0, 2))
+				if lk == 0 && lastLock != "" && r.Chance(60) { // unlock exactly what was locked last
+					reg, lastLock = lastLock, ""
+				}
+				ops = append(ops, fmt.Sprintf("%s %d", reg, lk))
+				if lk == 1 {
+					lastLock = reg
+					if r.Chance(40) { // a wide rune just left of the locked region
+						ops = append(ops, fmt.Sprintf("sc %d %d %d - %s", x-1, y, h.Pick(r, []int{0x4e16, 0x754c, 0xff21}), RandStyle(r)))
+					}
+				}
 			case c < 94:
 				ops = append(ops, fmt.Sprintf("cur %d %d", x, y))
 			case c < 95:
